@@ -3,7 +3,9 @@
 #define T_FRESH(self) (__CPROVER_is_fresh(self, sizeof(*self)))
 #define T_BOOLS(self) (BOOL_OK((self)->m_open) && BOOL_OK((self)->m_non_blocking) && BOOL_OK((self)->m_dont_fragment) && BOOL_OK((self)->m_is_v4) && BOOL_OK((self)->m_recv_null_buffers) && BOOL_OK((self)->m_send_null_buffers))
 #define T_SLOTS(self) (FN_SLOT_OK((self)->m_connect_handler) && FN_SLOT_OK((self)->m_send_handler) && FN_SLOT_OK((self)->m_wait_send_handler) && FN_SLOT_OK((self)->m_recv_handler) && FN_SLOT_OK((self)->m_wait_recv_handler))
-#define T_NUM(self) ((self)->m_mss >= 1 && (self)->m_mss <= SEG_MAX && (self)->m_cwnd >= (self)->m_mss && (self)->m_cwnd <= SZ_MAX && (self)->m_bytes_in_flight >= 0 && (self)->m_bytes_in_flight <= SZ_MAX && (self)->m_queue_size >= 0 && (self)->m_queue_size <= SZ_MAX)
+#define T_NUM(self) ((self)->m_mss >= 1 && (self)->m_mss <= SEG_MAX && (self)->m_cwnd >= (self)->m_mss && (self)->m_cwnd <= SZ_MAX && (self)->m_bytes_in_flight >= 0 && (self)->m_bytes_in_flight <= SZ_MAX)
+/* tcp::socket::m_queue_size is only ever decremented (read_some_impl) and reset by close(): it is a dead account that goes
+ * negative as the socket is read; no invariant constrains it (the real states would not satisfy one) */
 /* [C06.flight] the bytes in flight are exactly the sizes of the outstanding segments */
 #define T_FLIGHT(self) ((int64_t)(self)->m_bytes_in_flight == (self)->m_outstanding_packet_sizes.sum)
 #define MY_IDX(self) ((self)->m_channel->ep[0] == (self)->m_bound_to ? 0 : 1)
@@ -18,6 +20,10 @@
 #define INV_tcp(self) (T_RECV(self) && INV_tcp_noR(self))
 #define INV_tcp_noR(self) (T_BOOLS(self) && T_SLOTS(self) && T_NUM(self) && T_FLIGHT(self) && T_SEQ(self) && SMI_OK((self)->m_outstanding_packet_sizes) && SMP_OK((self)->m_reorder_buffer) && \
    INV_hrtimer(&(self)->m_connect_timer) && INV_hrtimer(&(self)->m_recv_timer) && EP_VALID((self)->m_bound_to))
+/* a pending read holds the caller's (non-empty) buffer sequence; not part of INV_tcp because loop invariants may not call the
+ * uninterpreted size function */
+#define T_RBUF(self) ((self)->m_recv_handler != 0 ? ((self)->m_recv_buffer.n >= 1 && (self)->m_recv_buffer.n <= 64 && BUFSEQ_SIZE((self)->m_recv_buffer, 0) >= 1) : 1)
+#define RD_GHOST g_rd_copies, g_rd_bytes, g_rd_size, g_rd_pre
 #define CH_FRESH(self) ((self)->m_channel == (struct channel *)0 ? 1 : __CPROVER_is_fresh((self)->m_channel, sizeof(struct channel)))
 /* a connected socket is one end of its channel */
 #define CH_MINE(self) ((self)->m_channel->ep[0] != (self)->m_channel->ep[1] && ((self)->m_channel->ep[0] == (self)->m_bound_to || (self)->m_channel->ep[1] == (self)->m_bound_to))
